@@ -282,7 +282,10 @@ impl Report {
     }
     /// `key` identifies the failure canonically (used for known findings and de-duplication).
     pub fn fail(&mut self, kind: FailKind, key: &str, desc: &str, replay: Value) {
-        if self.failures.iter().any(|f| f["key"] == key) || self.failures.len() >= self.max_failures {
+        // separate caps per kind: model disagreements must not crowd out failing inputs
+        let kind_s = match kind { FailKind::Impl => "impl", FailKind::Model => "model" };
+        let same_kind = self.failures.iter().filter(|f| f["kind"] == kind_s).count();
+        if self.failures.iter().any(|f| f["key"] == key) || same_kind >= self.max_failures {
             return;
         }
         self.failures.push(json!({
